@@ -153,7 +153,7 @@ def one_case(ctx, k):
 
 
 def run(ctx):
-    n = 150 if ctx.tier == 'quick' else 3000
+    n = 200 if ctx.tier == 'quick' else 3000
     for k in range(n):
         one_case(ctx, k)
         if ctx.n_new() >= 3:
